@@ -253,6 +253,8 @@ def rewrite_func_as_lambda(f: ast.FunctionDef) -> ast.Lambda:
     # the arguments
     args = f.args
     ret = cast(ast.Return, interesting_body[0])
+    if ret.value is None:
+        raise ValueError(f'Simple function must return a value - "{f.name}" does not.')
     return ast.Lambda(args, ret.value)  # type: ignore
 
 
@@ -293,6 +295,10 @@ class _rewrite_captured_vars(ast.NodeTransformer):
             elif (
                 callable(v)
                 and not any(v is f for f in self._inlining)
+                # A bound method carries its object, a `functools.wraps` wrapper the code of
+                # its decorator: their source text is not what calling them does.
+                and not inspect.ismethod(v)
+                and not hasattr(v, "__wrapped__")
                 and ((lm := safe_parse_wrapper(v)) is not None)
             ):
                 # What the helper's own body captures (globals of its module, variables of
@@ -862,6 +868,13 @@ def _parse_source_for_lambda(
     # enclosing function for the lambda - as funny things can be done with indents
     # and function arguments, and the tokenizer does not take kindly to surprising
     # "un-indents".
+    if hasattr(ast_source, "__wrapped__"):
+        # What `functools.wraps` wrapped is not what calling the wrapper does - and python's
+        # source lookup goes for the wrapped function.
+        raise ValueError(
+            f"Unable to use the source of {ast_source}: it is a wrapper around another function."
+        )
+
     func_name = None
     start_token = None
     source, lambda_line = _get_sourcelines(ast_source)
@@ -870,7 +883,7 @@ def _parse_source_for_lambda(
     # A lambda can share its line with a one-line `def` (`def f(ds): return ds.Select(lambda
     # e: e.x)`): only look for a `def` if we were actually handed a function.
     is_lambda = getattr(ast_source, "__name__", None) == "<lambda>"
-    keywords_to_find = ["lambda"] if is_lambda else ["def", "lambda"]
+    keywords_to_find = ["lambda"] if is_lambda else ["def"]
     while func_name is None:
         # Setup the tokenizer
         t_stream = _token_runner(source, lambda_line)
